@@ -692,6 +692,33 @@ func runC13Start(c *c13Start) c13StartRes {
 		}
 	}
 
+	// a refusal is final: asking the same client again (Start, then Client) launches nothing either
+	if pred == "ok" && c.secure && !launched && err != nil && !hung && p == nil {
+		for _, again := range []string{"start", "client"} {
+			_, h2, p2 := withTimeout(30*time.Second, func() error {
+				if again == "start" {
+					_, e := client.Start()
+					return e
+				}
+				_, e := client.Client()
+				return e
+			})
+			time.Sleep(150 * time.Millisecond)
+			_, me := os.Stat(marker)
+			started := (cmd != nil && cmd.Process != nil) || (fr != nil && atomic.LoadInt32(&fr.starts) > 0) || atomic.LoadInt32(&rfCalls) > 0 || me == nil
+			switch {
+			case h2 || p2 != nil:
+				pred = "FAIL:retry-after-refusal-hung-or-panicked"
+			case started:
+				pred = "FAIL:launched-on-retry-after-refusal:" + again
+				procStarted = cmd != nil && cmd.Process != nil
+			}
+			if pred != "ok" {
+				break
+			}
+		}
+	}
+
 	// cleanup: nothing may survive the case
 	if procStarted && (err != nil || hung || p != nil) {
 		cmd.Process.Kill()
